@@ -399,9 +399,13 @@ def solve_sat(
             add_watch(clause[0], i)
             add_watch(clause[1], i)
 
-    for var, val in find_pure_literals():
-        if vals[var] == UNDEF:
-            assign(var, val, -1)
+    # Pure-literal elimination preserves satisfiability, not the set of models: use it only
+    # when one model is wanted, and never on a variable that an assumption fixes.
+    if solution_limit == 1:
+        assumed_vars = {lit_var(lit) for lit in assumptions}
+        for var, val in find_pure_literals():
+            if vals[var] == UNDEF and var not in assumed_vars:
+                assign(var, val, -1)
 
     for lit, idx in unit_clauses:
         var = lit_var(lit)
